@@ -157,3 +157,10 @@ func RunNative(f func()) (outcome string) {
 	f()
 	return "done"
 }
+
+// And, Or, Implies combine conditions without branching, so that a harness
+// can state a compound predicate as one solver term instead of a fork per
+// operand (the arguments are evaluated eagerly).
+func And(a, b bool) bool     { return a && b }
+func Or(a, b bool) bool      { return a || b }
+func Implies(a, b bool) bool { return !a || b }
